@@ -21,6 +21,9 @@ func c11(c *Check) {
 	c.Extra["frozen_entries"] = n
 	c.Rule("C11/no-failure-reported-as-success", "on the failure edge of one error no function returns another error value that is provably nil at that point (a wrapped stale `err` instead of the error just tested): a failed step is never reported as success", 1)
 	noFailureAsSuccess(c, "C11/no-failure-reported-as-success", fnsInPackages(c, "/x/aggregate"))
+	c.Rule("C11/one-backing-per-contract-and-denomination", "what keeps each pair's backing apart (shared with C12): a registration function indexes a contract or a denomination only after testing exactly that key as not yet registered, and those tests answer from their own index at exactly the key given — otherwise two pairs share a contract or a denomination and one pair's conversions pay out the other's escrow", 8)
+	guardKeyIsWriteKey(c, "C11/one-backing-per-contract-and-denomination", []string{"RegisterCoin", "AddCoin", "RegisterERC20", "UpdateTokenPairERC20"})
+	registeredTestsReadOwnIndex(c, "C11/one-backing-per-contract-and-denomination")
 	c.Rule("C11/disabled-pair-stays-disabled", "no registry operation other than the toggle proposal changes a pair's enabled flag: AddCoin stores the loaded pair with only its denomination list extended (shared with C12)", 1)
 	addCoinKeepsPair(c, "C11/disabled-pair-stays-disabled")
 	c.Rule("C11/approval-scan-complete", "monitorApprovalEvent accepts a call result only after looking at every log: an Approval event behind another event is still refused", 1)
